@@ -40,6 +40,7 @@ func lemma_C14_simple_methods(code, id, sel uint8, data []byte) {
 	case 0:
 		z, ok := y.EapTypeData.(*EapIdentity)
 		verifAssert(ok && verifBytesEq(z.IdentityData, data), "C14/identity-data-recovered")
+		verifAssert(ok && verifBytesEq(z.IdentityData, data), "C03/EAP-identity/data-recovered")
 	case 1:
 		z, ok := y.EapTypeData.(*EapNotification)
 		verifAssert(ok && verifBytesEq(z.NotificationData, data), "C14/notification-data-recovered")
@@ -74,6 +75,7 @@ func lemma_C14_expanded(code, id uint8, vendorID, vendorType uint32, data []byte
 	verifAssert(y.Unmarshal(b) == nil, "C14/expanded-unmarshal-ok")
 	z, ok := y.EapTypeData.(*EapExpanded)
 	verifAssert(ok && z.VendorID == vendorID && z.VendorType == vendorType && verifBytesEq(z.VendorData, data), "C14/expanded-fields-recovered")
+	verifAssert(ok && z.VendorID == vendorID && z.VendorType == vendorType && verifBytesEq(z.VendorData, data), "C03/EAP-expanded/fields-recovered")
 }
 
 // ---- EAP-AKA' attributes ----
@@ -313,4 +315,52 @@ func lemma_C14_wire_kdf_input(code, id, subtype uint8, value, pad []byte) {
 func lemma_C14_wire_checkcode(code, id, subtype uint8, value []byte) {
 	verifAssume(len(value) == 0 || len(value) == 20 || len(value) == 32)
 	verifAkaWire(code, id, subtype, uint8(AT_CHECKCODE), value, nil)
+}
+
+// a message that has been encoded once encodes attributes added afterwards as well
+// (the enumeration of attributes is recomputed, never cached across a SetAttr)
+//
+//verif:bounded packets growing from one attribute (AT_RAND) to two (AT_RAND, AT_KDF)
+//verif:unroll (*eap.EapAkaPrime).Marshal#loop1 3 assert
+//verif:unroll (*eap.EapAkaPrime).getAttrsKeys#loop1 3 assert
+func lemma_C14_marshal_after_set(subtype uint8, rand, kdf []byte) {
+	verifAssume(len(rand) == 16 && len(kdf) == 2)
+	a := NewEapAkaPrime(EapAkaSubtype(subtype))
+	verifAssume(a.SetAttr(AT_RAND, rand) == nil)
+	b1, e1 := a.Marshal()
+	verifAssert(e1 == nil && len(b1) == 4+20, "C14/first-encoding")
+	verifAssume(a.SetAttr(AT_KDF, kdf) == nil)
+	b2, e2 := a.Marshal()
+	verifAssert(e2 == nil && len(b2) == 4+20+4, "C14/attribute-added-after-an-encoding-is-encoded")
+}
+
+// an attribute of a type the library does not handle (AT_NOTIFICATION, AT_IDENTITY, ...)
+// is carried through decode -> encode -> decode unchanged and does not disturb the
+// attributes behind it: it is skipped by its length (RFC 4187 8.1)
+//
+//verif:bounded packets with one unhandled attribute followed by AT_KDF
+//verif:maxlen body=60
+//verif:unroll (*eap.EapAkaPrime).Marshal#loop1 3 assert
+//verif:unroll (*eap.EapAkaPrime).getAttrsKeys#loop1 3 assert
+//verif:unroll (*eap.EapAkaPrime).Unmarshal#loop1 4 assert
+//verif:unroll (*eap.EapAkaPrime).GetAttr#loop1 3 assert
+func lemma_C12_aka_unhandled_attribute(code, id, subtype, t uint8, body, kdf []byte) {
+	verifAssume(t != 1 && t != 2 && t != 3 && t != 11 && t != 23 && t != 24 && t != 134 && t < 24)
+	verifAssume(len(body) >= 2 && len(body) <= 60 && (2+len(body))%4 == 0 && len(kdf) == 2)
+	n := 8 + 2 + len(body) + 4
+	w := make([]byte, n)
+	w[0], w[1], w[2], w[3] = code, id, byte(n>>8), byte(n)
+	w[4], w[5], w[6], w[7] = 50, subtype, 0, 0
+	w[8], w[9] = t, byte((2+len(body))/4)
+	copy(w[10:], body)
+	o := 10 + len(body)
+	w[o], w[o+1], w[o+2], w[o+3] = 24, 1, kdf[0], kdf[1]
+	y := new(EAP)
+	verifAssert(y.Unmarshal(w) == nil, "C12/aka-packet-with-an-unhandled-attribute-decodes")
+	z, ok := y.EapTypeData.(*EapAkaPrime)
+	verifAssert(ok, "C12/aka-unhandled/is-aka")
+	g, e1 := z.GetAttr(AT_KDF)
+	verifAssert(e1 == nil && len(g.GetValue()) == 2 && g.GetValue()[0] == kdf[0] && g.GetValue()[1] == kdf[1], "C12/aka-attribute-behind-an-unhandled-one-is-found-by-skipping-its-length")
+	w2, e2 := y.Marshal()
+	verifAssert(e2 == nil && len(w2) == n, "C12/aka-unhandled-attribute-re-encodes-to-the-same-length")
 }
